@@ -254,6 +254,11 @@ def check_one(con, vname, fn, case, env0, timeout_s=5, pid=None):
     return ('violation' if failures else 'ok'), failures
 
 
+def _shorten(x, limit=600):
+    s_ = json.dumps(x, default=str)
+    return x if len(s_) <= limit else {'recipe_json_prefix': s_[:limit] + '...'}
+
+
 def load_contract(modname, target):
     mod = importlib.import_module(modname)
     for c in mod.CONTRACTS:
@@ -277,6 +282,8 @@ def search(modname, target, vname, seed, budget, tier, pid=None):
     env0 = spec_env()
     env0.update(getattr(mod, 'NATIVE_ENV', {}))
     seen_clauses = {}
+    distinct = set()
+    samples = []
     for recipe in gen(rng, tier, vname):
         case = build(recipe)
         case['recipe'] = recipe
@@ -294,6 +301,12 @@ def search(modname, target, vname, seed, budget, tier, pid=None):
             out['skipped'] += 1
             continue
         out['accepted'] += 1
+        import hashlib
+        hsh = hashlib.sha1(json.dumps(recipe, sort_keys=True, default=str).encode()).hexdigest()
+        if hsh not in distinct:
+            distinct.add(hsh)
+            if len(samples) < 2:
+                samples.append(json.loads(json.dumps(recipe, default=str))) 
         if status == 'violation':
             for clause, why in failures:
                 if clause not in seen_clauses:
@@ -304,6 +317,8 @@ def search(modname, target, vname, seed, budget, tier, pid=None):
                     out['violations'].append(dict(clause=f"{target}:{clause}", why=why, input=describe(args),
                                                   case=case.get('recipe'), note=case.get('note', '')))
     out['bound'] = getattr(gen, 'bound', (gen.__doc__ or '').strip())
+    out['distinct_accepted'] = len(distinct)
+    out['samples'] = [_shorten(x) for x in samples]
     out['distinct_failing_clauses'] = sorted(seen_clauses)
     out['failing_counts'] = seen_clauses
     out['seconds'] = round(time.time() - t0, 3)
